@@ -50,7 +50,52 @@ FIELDS = {
     "b2": -1,
     "leak": False,
     "x": "",
+    "b1n": -1, "b1m": -1, "b1s": -1, "b2n": -1, "b2m": -1, "b2s": -1,
+    "ck": 0, "cid": -1, "off": -1, "cok": True,
 }
+
+
+def canon(cid, start, length):
+    """Self-describing canonical byte string number `cid`: 8-byte cells
+    "%02x%05x;" (cid, cell index); returns bytes [start, start+length)."""
+    if length <= 0:
+        return b""
+    first = start // 8
+    last = (start + length - 1) // 8
+    data = b"".join(b"%02x%05x;" % (cid & 0xFF, j & 0xFFFFF) for j in range(first, last + 1))
+    o = start - first * 8
+    return data[o : o + length]
+
+
+def identify(payload, off_hint=None):
+    """-> (cid, off, consistent) for a payload taken from a canonical string."""
+    n = len(payload)
+    if n == 0:
+        return -1, -1, True
+    if n >= 8:
+        # find a cell boundary
+        for shift in range(8):
+            cell = payload[shift : shift + 8]
+            if len(cell) == 8 and cell[7:8] == b";":
+                try:
+                    cid = int(cell[0:2], 16)
+                    j = int(cell[2:7], 16)
+                except ValueError:
+                    continue
+                off = j * 8 - shift
+                if off >= 0 and canon(cid, off, n) == bytes(payload):
+                    return cid, off, True
+        return -1, -1, False
+    # short payload: needs the offset from the block option
+    if off_hint is not None:
+        for cid in range(256):
+            if canon(cid, off_hint, n) == bytes(payload):
+                return cid, off_hint, True
+    return -1, -1, False
+
+
+def key_salt(r, code, ck):
+    return (r * 64 + code * 16 + ck) & 0xFF
 
 
 def units(loop):
@@ -111,7 +156,20 @@ def build_msg(step, reqs, free_mid):
         options += [(wire.URI_PATH, p.encode()) for p in step["path"]]
     if "nr" in step and step["nr"] is not None:
         options.append((wire.NO_RESPONSE, wire.uint(step["nr"])))
+    if "ckq" in step:
+        options.append((wire.URI_QUERY, b"k=%d" % step["ckq"]))
+    if step.get("b1") is not None:
+        options.append((wire.BLOCK1, wire.block(*step["b1"])))
+    if step.get("b2") is not None:
+        options.append((wire.BLOCK2, wire.block(*step["b2"])))
+    if step.get("etag") is not None:
+        options.append((wire.ETAG, bytes.fromhex(step["etag"])))
+    if step.get("observe") is not None:
+        options.append((wire.OBSERVE, wire.uint(step["observe"])))
     payload = step.get("payload", b"")
+    if "body" in step:
+        b = step["body"]
+        payload = canon(b["cid"], b["off"], b["len"])
     if isinstance(payload, str):
         payload = bytes.fromhex(payload)
     return wire.encode(ty, step.get("code", 0), mid, tok, options, payload)
@@ -158,7 +216,24 @@ def run(sched):
         b1 = wire.opt(m, wire.BLOCK1)
         b2 = wire.opt(m, wire.BLOCK2)
         nr = wire.opt(m, wire.NO_RESPONSE)
+        blk = {}
+        for name, raw in (("b1", b1), ("b2", b2)):
+            if raw is not None:
+                n_, m_, s_ = wire.unblock(raw)
+                blk[name + "n"], blk[name + "m"], blk[name + "s"] = n_, int(m_), s_
+        hint = None
+        if b2 is not None and m["code"] >= 64:
+            hint = blk["b2n"] * (2 ** (min(blk["b2s"], 6) + 4))
+        elif b1 is not None and m["code"] < 32:
+            hint = blk["b1n"] * (2 ** (min(blk["b1s"], 6) + 4))
+        cid, off, cok = identify(m["payload"], hint if hint is not None else 0)
+        qs = wire.opts(m, wire.URI_QUERY)
+        ckq = 0
+        for qv in qs:
+            if qv.startswith(b"k=") and qv[2:].isdigit():
+                ckq = int(qv[2:])
         return dict(
+            ckq=ckq, cid=cid, off=off, cok=cok, **blk,
             ty=wire.TYPE_NAMES[m["type"]],
             mid=m["mid"],
             tok=m["token"].hex(),
@@ -195,6 +270,7 @@ def run(sched):
             ev("tx", r=r, ty="?", cls="unparsable")
             return
         f = msg_fields(m, rec["data"])
+        f.pop("ckq")
         q = q_of(r, m["token"]) if f["cls"] == "req" else 0
         dest_mc = str(rec["to"][0]).lower().startswith("ff")
         ev("tx", r=r, q=q, x="other" if rec["sock"] == "other" else "", loc="m" if dest_mc else "u", **f)
@@ -254,7 +330,8 @@ def run(sched):
                 x = "nopath"
             elif names.get(f["code"]) not in plan.get("methods", list(names.values())):
                 x = "unimpl"
-        ev("rx", r=r, q=q, loc=loc, h=h, x=x, **f)
+        ckq = f.pop("ckq")
+        ev("rx", r=r, q=q, loc=loc, h=h, x=x, ck=h * 10 + ckq, **f)
 
     w.net.on_sent = on_sent
 
@@ -304,6 +381,7 @@ def run(sched):
                     code=int(request.code),
                     plen=len(request.payload),
                     x=zlib_hex(request.payload),
+                    **body_fields(request, r, self.n),
                 )
                 delay = self.plan.get("delay", 0)
                 try:
@@ -319,15 +397,36 @@ def run(sched):
                 except asyncio.CancelledError:
                     ev("cancelled", h=self.n, inv=inv)
                     raise
-                ev("release", h=self.n, inv=inv, x=outcome)
-                return produce(outcome, self.n, inv, self.plan)
+                lens = self.plan.get("lens")
+                plan = self.plan
+                if lens:
+                    self.count = getattr(self, "count", 0) + 1
+                    plan = dict(self.plan, len=lens[(self.count - 1) % len(lens)])
+                ev("release", h=self.n, inv=inv, x=outcome, plen=plan.get("len", 8) if plan.get("canon") else 0)
+                return produce(outcome, self.n, inv, plan)
+
+        def body_fields(request, r, n):
+            """Is the body the handler sees a prefix of the canonical string of its key?"""
+            ckq = 0
+            for qv in request.opt.uri_query:
+                if qv.startswith("k=") and qv[2:].isdigit():
+                    ckq = int(qv[2:])
+            ck = n * 10 + ckq
+            salt = key_salt(r, int(request.code), ck)
+            body = bytes(request.payload)
+            return {"ck": ck, "cid": salt, "cok": body == canon(salt, 0, len(body)), "off": 0}
 
         def zlib_hex(b):
             return "%08x" % (zlib.crc32(bytes(b)) & 0xFFFFFFFF)
 
         def produce(outcome, n, inv, plan):
-            body = (("H%d-I%d-" % (n, inv)).encode() * 400)[: plan.get("len", 8)]
+            if plan.get("canon"):
+                body = canon(inv & 0xFF, 0, plan.get("len", 8))
+            else:
+                body = (("H%d-I%d-" % (n, inv)).encode() * 400)[: plan.get("len", 8)]
             if outcome == "ok":
+                if plan.get("etag"):
+                    return Message(code=Code.CONTENT, payload=body, etag=b"%02x" % (inv & 0xFF))
                 return Message(code=Code.CONTENT, payload=body)
             if outcome == "nocode":
                 return Message(payload=body)
